@@ -13,6 +13,8 @@ pub enum Cert {
     WrongName,
     SelfSigned,
     Expired,
+    /// CA-signed, valid, subjectAltName DNS:localhost only (no IP addresses)
+    DnsOnly,
 }
 
 impl Cert {
@@ -22,6 +24,7 @@ impl Cert {
             Cert::WrongName => "wrongname",
             Cert::SelfSigned => "selfsigned",
             Cert::Expired => "expired",
+            Cert::DnsOnly => "dnsonly",
         }
     }
 }
